@@ -11,9 +11,10 @@ import core
 import tlc
 
 PROBE = ("probe_num", "asan", ["f8utils.cpp", "modp_numtoa.c"], [])
-# the word-at-a-time checksum loads uint32 from unaligned addresses by design; alignment is not part
-# of any property here, so UBSan's alignment check is switched off for the probe's translation unit
-DEFINES = ["-fno-sanitize=alignment"]
+# the word-at-a-time checksum loads uint32 from unaligned addresses by design; alignment is not part of
+# any property here and lib/build.py's asan variant already carries -fno-sanitize=alignment, so the probe
+# needs no extra flags (and is the same binary lib/prebuild.py builds from PROBES)
+DEFINES = []
 
 
 def probe_binary():
